@@ -14,7 +14,8 @@ pub fn arg_case(rootfd: i32, c: &Value) -> Value {
     let which = c.get("which").and_then(|v| v.as_i64()).unwrap_or(0);
     let modecls = c.get("mode").and_then(|v| v.as_str()).unwrap_or("");
     let fd: c_int = if cls == "badfd" { val as c_int } else { rootfd };
-    let base: u64 = if cls == "badbase" { val as u64 } else { PROC_SELF };
+    let hi = c.get("hi").and_then(|v| v.as_i64()).unwrap_or(0);
+    let base: u64 = if cls == "badbase" { ((hi as i32 as u32 as u64) << 32) | (val as i32 as u32 as u64) } else { PROC_SELF };
     let p1s = CString::new(c.get("p1").and_then(|v| v.as_str()).unwrap_or("argcase_new")).unwrap();
     let p2s = CString::new(c.get("p2").and_then(|v| v.as_str()).unwrap_or("argcase_second")).unwrap();
     let p1: *const c_char = if cls == "nullpath" && which == 1 { std::ptr::null() } else { p1s.as_ptr() };
